@@ -1,15 +1,22 @@
 #!/bin/bash
+# Run the registered check (quick tier, or the tier named in meta.json) against every seeded change applied to
+# /repo itself, one after the other, and record the outcome in each meta.json.  ONLY_PENDING=1 skips those already run.
 cd /verif
 for d in seeded/C*-[0-9]*; do
-  tools/run_seeded.sh $d quick > /tmp/seedrun-$(basename $d).txt 2>&1
+  tier=$(python3 -c "import json;m=json.load(open('$d/meta.json'));print(m.get('tier','quick'))")
+  if [ "${ONLY_PENDING:-0}" = 1 ]; then
+    python3 -c "import json,sys;m=json.load(open('$d/meta.json'));sys.exit(0 if m.get('check_result')=='pending' else 1)" || continue
+  fi
+  tools/run_seeded.sh $d $tier > /tmp/seedrun-$(basename $d).txt 2>&1
   rc=$?
-  python3 - "$d" "$rc" <<'PY'
+  python3 - "$d" "$rc" "$tier" <<'PY'
 import json,sys
-d,rc=sys.argv[1],int(sys.argv[2])
+d,rc,tier=sys.argv[1],int(sys.argv[2]),sys.argv[3]
 m=json.load(open(d+'/meta.json'))
 log=open('/tmp/seedrun-'+d.split('/')[-1]+'.txt').read()
 viol=[l.strip() for l in log.splitlines() if l.startswith('VIOLATION') or l.startswith('  class=')]
-m["check_result"]={"command":"tools/run_seeded.sh %s quick  (git -C /repo apply; ./check %s quick; git -C /repo checkout -- .)"%(d,m.get("checked_by",m["property"])),"exit":rc,"detected":rc==1,"first_reports":viol[:4]}
+cid=m.get("checked_by",m["property"])
+m['check_result']={"command":"tools/run_seeded.sh %s %s  (git -C /repo apply; ./check %s %s; git -C /repo checkout -- .)"%(d,tier,cid,tier),"exit":rc,"detected":rc==1,"first_reports":viol[:4]}
 json.dump(m,open(d+'/meta.json','w'),indent=1)
 PY
 done
